@@ -168,6 +168,25 @@ func Finish(sp *Spec, outs []Outcome, t0 time.Time, loadS float64) int {
 					violations = append(violations, fmt.Sprintf("UNREPLAYED property=%s key=%q (replay budget used)", sp.ID, key))
 					continue
 				}
+				if ob.Pos == "hdl" || ob.Pos == "hdl-vs-sim" {
+					// obligations over generated HDL: no native Verilog simulator exists in this image; the
+					// counterexample is confirmed by evaluating the obligation concretely under the model
+					// (independent of the solver) and stored as a trace
+					if !ob.Confirmed {
+						machinery = append(machinery, fmt.Sprintf("ENCODING-MISMATCH %s: the solver's model does not falsify the obligation when evaluated concretely", key))
+						continue
+					}
+					if f != nil {
+						knownConfirmed[f.ID] = true
+						nDis++
+						continue
+					}
+					replays++
+					path := WriteTrace(sp.ID, replays, o.Config.Name, ob, nil)
+					violations = append(violations, fmt.Sprintf("VIOLATION property=%s replay=%s", sp.ID, path))
+					fmt.Printf("  violated: %s\n", key)
+					continue
+				}
 				hh := sp.Harness
 				if o.Config.Harness != nil {
 					hh = *o.Config.Harness
